@@ -53,3 +53,38 @@ def replay_file(ctx, path):
         m.pop("behaviour", None)
     print(json.dumps(rep["mismatches"][:2], indent=1)[:4000])
     return 1 if rep["mismatches"] else 0
+
+
+def fs_replay(ctx, thorough):
+    """World W3f on the REAL FileSystem source and inotify watcher (hooks needed for synchronisation)."""
+    import os
+    if not vlib.hooks_present():
+        ctx.cov["fs_replay"] = "skipped: hooks absent"
+        return
+    behs = []
+    r, b = worlds.generate("W3f", 4, limit=(1200 if thorough else 120))
+    ctx.add_tlc("Gen W3f: the diamond on a real file system (every edit notified by the watcher), length 4", r)
+    behs += b
+    r, b = worlds.generate("W3f", 7, simulate=(60 if thorough else 8), seed=ctx.seed, limit=(1500 if thorough else 150))
+    ctx.add_tlc("Gen W3f: length 7, simulated", r)
+    behs += b
+    path = os.path.join(vlib.WORK, f"fsr-{os.getpid()}.ndjson")
+    with open(path, "w") as f:
+        for x in behs:
+            f.write(json.dumps(x) + "\n")
+    try:
+        p = vlib.run_bin("amv", ["fs-replay", path, vlib.WORK], timeout=1500)
+    finally:
+        os.remove(path)
+    why = vlib.died(p)
+    if why:
+        ctx.violation(f"{ctx.prop}/fs-crash", f"the process replaying on the real file system died ({why})", {"stderr": p.stderr[-1500:]})
+        return
+    rep = worlds.parse_report(p)
+    for x in behs:
+        ctx.case(x, nontrivial=any(s["step"].get("op") == "editn" for s in x[1:]))
+    ctx.cov["traces_validated_against_impl"] += len(behs)
+    ctx.cov["fs_replay"] = dict(behaviours=len(behs), steps=rep["checks"], mismatches=len(rep["mismatches"]))
+    for m in rep["mismatches"]:
+        beh = m.pop("behaviour", None)
+        ctx.violation(f"{ctx.prop}/fs:{m.get('what', '?')[:60]}", "real FileSystem + watcher: " + str(m.get("what")), {"mismatch": m, "behaviour": beh})
